@@ -477,6 +477,8 @@ def run_values(R, spec, cases, which):
             if st == "refused":
                 refused += 1
                 R.case("C02.wire_roundtrip", key=(spec.key, rdclass, which, idx), nontrivial=False)
+                if any(str(l).startswith("noncanonical") for l in labels.values()):
+                    continue  # legal on the wire today, but a stricter constructor would not contradict the property
                 for f in fails:
                     mv, vclass = _attribute(spec, vals, rdclass, origins, f)
                     f.sig["vclass"] = vclass
